@@ -101,45 +101,65 @@ theorem flatten_valid_sorted (t : Tree) (hwf : t.WF = true) :
 
 /-! ## diff: sound, complete, each path at most once -/
 
-/-- Exactness of the diff (tree_changes with its default walk: identical sub-trees pruned, no tree entries,
-with or without `change_type_same`; `H` separating well-formed trees): the entries it installs (add / modify new
-sides) are exactly the entries of `b` that `a` does not hold identically, in path order, and the paths it removes
-(delete / modify old sides) are exactly those of the entries of `a` that `b` does not hold identically.  So nothing
-unchanged is reported, nothing changed is missed, and mode-only and type-only changes are changes. -/
-theorem diff_exact (H : Bytes → Id) (hH : IdInjective H) (cts : Bool) (a b : Tree)
-    (ha : a.WF = true) (hb : b.WF = true) :
-    addedEntries (treeChanges H ⟨false, false, cts⟩ none (some a) (some b)) =
+/-- Exactness of the diff (tree_changes without tree entries; with or without `want_unchanged`, with or without
+`change_type_same`).  When identical sub-trees are pruned (`want_unchanged = False`, the default) the hash `H` is
+assumed to separate the sub-trees of `a` from the sub-trees of `b` — `IdInjectiveOn`, implied by `IdInjective H` —
+which is what pruning by id equality needs; without pruning no assumption on `H` is made at all.
+The entries the diff installs (add / modify new sides) are exactly the entries of `b` that `a` does not hold
+identically, in path order, and the paths it removes (delete / modify old sides) are exactly those of the entries of
+`a` that `b` does not hold identically.  So nothing unchanged is reported as a change, nothing changed is missed, and
+mode-only and type-only changes are changes. -/
+theorem diff_exact (H : Bytes → Id) (wu cts : Bool) (a b : Tree)
+    (hH : wu = false → IdInjectiveOn H (a :: a.subtrees) (b :: b.subtrees)) (ha : a.WF = true) (hb : b.WF = true) :
+    addedEntries (treeChanges H ⟨wu, false, cts⟩ none (some a) (some b)) =
       b.flatten.filter (fun e => lookupL a.flatten e.path != some e) ∧
-    removedPaths (treeChanges H ⟨false, false, cts⟩ none (some a) (some b)) =
+    removedPaths (treeChanges H ⟨wu, false, cts⟩ none (some a) (some b)) =
       (a.flatten.filter (fun e => lookupL b.flatten e.path != some e)).map (·.path) :=
-  treeChanges_spec H hH cts (some a) (some b) ha hb
+  treeChanges_spec H wu cts (some a) (some b) hH ha hb
 
 /-- Soundness + completeness: the difference computed between two trees, applied to the first tree's flat listing,
 yields exactly the second's. -/
-theorem diff_sound_complete (H : Bytes → Id) (hH : IdInjective H) (cts : Bool) (a b : Tree)
-    (ha : a.WF = true) (hb : b.WF = true) :
-    applyChanges (treeChanges H ⟨false, false, cts⟩ none (some a) (some b)) a.flatten = b.flatten := by
-  have h := diff_exact H hH cts a b ha hb
+theorem diff_sound_complete (H : Bytes → Id) (wu cts : Bool) (a b : Tree)
+    (hH : wu = false → IdInjectiveOn H (a :: a.subtrees) (b :: b.subtrees)) (ha : a.WF = true) (hb : b.WF = true) :
+    applyChanges (treeChanges H ⟨wu, false, cts⟩ none (some a) (some b)) a.flatten = b.flatten := by
+  have h := diff_exact H wu cts a b hH ha hb
   exact apply_diff (flatten_sorted ha) (flatten_sorted hb) h.1 h.2
 
-/-- the same from / to "no tree" (`tree_changes(store, None, id)`, `tree_changes(store, id, None)`) -/
-theorem diff_from_nothing (H : Bytes → Id) (hH : IdInjective H) (cts : Bool) (b : Tree) (hb : b.WF = true) :
-    applyChanges (treeChanges H ⟨false, false, cts⟩ none none (some b)) [] = b.flatten := by
-  have h := treeChanges_spec H hH cts none (some b) trivial hb
+/-- without pruning (`want_unchanged = True`) this holds for EVERY function `H`, collisions included -/
+theorem diff_unpruned_sound_complete (H : Bytes → Id) (cts : Bool) (a b : Tree) (ha : a.WF = true) (hb : b.WF = true) :
+    applyChanges (treeChanges H ⟨true, false, cts⟩ none (some a) (some b)) a.flatten = b.flatten :=
+  diff_sound_complete H true cts a b (fun h => by cases h) ha hb
+
+/-- Pruning identical sub-trees changes nothing that matters: with a hash that separates the sub-trees involved, the
+pruned walk installs and removes exactly what the full walk does. -/
+theorem prune_identical_same_result (H : Bytes → Id) (cts : Bool) (a b : Tree)
+    (hH : IdInjectiveOn H (a :: a.subtrees) (b :: b.subtrees)) (ha : a.WF = true) (hb : b.WF = true) :
+    addedEntries (treeChanges H ⟨false, false, cts⟩ none (some a) (some b)) =
+      addedEntries (treeChanges H ⟨true, false, cts⟩ none (some a) (some b)) ∧
+    removedPaths (treeChanges H ⟨false, false, cts⟩ none (some a) (some b)) =
+      removedPaths (treeChanges H ⟨true, false, cts⟩ none (some a) (some b)) := by
+  have h1 := diff_exact H false cts a b (fun _ => hH) ha hb
+  have h2 := diff_exact H true cts a b (fun h => by cases h) ha hb
+  exact ⟨h1.1.trans h2.1.symm, h1.2.trans h2.2.symm⟩
+
+/-- the same from / to "no tree" (`tree_changes(store, None, id)`, `tree_changes(store, id, None)`); no assumption on `H` -/
+theorem diff_from_nothing (H : Bytes → Id) (wu cts : Bool) (b : Tree) (hb : b.WF = true) :
+    applyChanges (treeChanges H ⟨wu, false, cts⟩ none none (some b)) [] = b.flatten := by
+  have h := treeChanges_spec H wu cts none (some b) (fun _ _ hs => by cases hs) trivial hb
   exact apply_diff (la := []) List.Pairwise.nil (flatten_sorted hb) h.1 h.2
 
-theorem diff_to_nothing (H : Bytes → Id) (hH : IdInjective H) (cts : Bool) (a : Tree) (ha : a.WF = true) :
-    applyChanges (treeChanges H ⟨false, false, cts⟩ none (some a) none) a.flatten = [] := by
-  have h := treeChanges_spec H hH cts (some a) none ha trivial
+theorem diff_to_nothing (H : Bytes → Id) (wu cts : Bool) (a : Tree) (ha : a.WF = true) :
+    applyChanges (treeChanges H ⟨wu, false, cts⟩ none (some a) none) a.flatten = [] := by
+  have h := treeChanges_spec H wu cts (some a) none (fun _ _ _ _ hs => by cases hs) ha trivial
   exact apply_diff (lb := []) (flatten_sorted ha) List.Pairwise.nil h.1 h.2
 
 /-- Each path is mentioned at most once: no path is installed twice and no path is removed twice (a type change
 reported as delete + add names its path once on each side; with `change_type_same` it is one modify). -/
-theorem each_path_once (H : Bytes → Id) (hH : IdInjective H) (cts : Bool) (a b : Tree)
-    (ha : a.WF = true) (hb : b.WF = true) :
-    ((addedEntries (treeChanges H ⟨false, false, cts⟩ none (some a) (some b))).map (·.path)).Nodup ∧
-    (removedPaths (treeChanges H ⟨false, false, cts⟩ none (some a) (some b))).Nodup := by
-  have h := diff_exact H hH cts a b ha hb
+theorem each_path_once (H : Bytes → Id) (wu cts : Bool) (a b : Tree)
+    (hH : wu = false → IdInjectiveOn H (a :: a.subtrees) (b :: b.subtrees)) (ha : a.WF = true) (hb : b.WF = true) :
+    ((addedEntries (treeChanges H ⟨wu, false, cts⟩ none (some a) (some b))).map (·.path)).Nodup ∧
+    (removedPaths (treeChanges H ⟨wu, false, cts⟩ none (some a) (some b))).Nodup := by
+  have h := diff_exact H wu cts a b hH ha hb
   rw [h.1, h.2]
   exact ⟨(flatten_sorted hb).nodup_paths.sublist (List.filter_sublist.map _),
          (flatten_sorted ha).nodup_paths.sublist (List.filter_sublist.map _)⟩
@@ -162,11 +182,12 @@ theorem rename_pass_preserves (pairing : List Change → List Pairing) (cs : Lis
   exact (applyChanges_congr hs h.1.symm h.2.symm hnd).symm
 
 /-- diff, then any rename pass, still patches `a` into `b` -/
-theorem diff_with_renames_sound_complete (H : Bytes → Id) (hH : IdInjective H) (cts : Bool)
-    (pairing : List Change → List Pairing) (a b : Tree) (ha : a.WF = true) (hb : b.WF = true) :
-    applyChanges (renamePass pairing (treeChanges H ⟨false, false, cts⟩ none (some a) (some b))) a.flatten = b.flatten := by
-  rw [rename_pass_preserves pairing _ _ (flatten_sorted ha) (each_path_once H hH cts a b ha hb).1]
-  exact diff_sound_complete H hH cts a b ha hb
+theorem diff_with_renames_sound_complete (H : Bytes → Id) (wu cts : Bool)
+    (pairing : List Change → List Pairing) (a b : Tree)
+    (hH : wu = false → IdInjectiveOn H (a :: a.subtrees) (b :: b.subtrees)) (ha : a.WF = true) (hb : b.WF = true) :
+    applyChanges (renamePass pairing (treeChanges H ⟨wu, false, cts⟩ none (some a) (some b))) a.flatten = b.flatten := by
+  rw [rename_pass_preserves pairing _ _ (flatten_sorted ha) (each_path_once H wu cts a b hH ha hb).1]
+  exact diff_sound_complete H wu cts a b hH ha hb
 
 section Examples
 def idA : Id := List.replicate 20 0xaa
@@ -228,7 +249,66 @@ theorem apply_equals_rebuild_partial (t t1 : Tree) (e : Entry) (hwf : t.WF = tru
     rw [this]
     exact build_flatten t1 hwf1
 
+/-- Proved part, removals: removing ONE existing entry with commit_tree_changes — emptied directories are pruned all
+the way up — gives exactly the tree commit_tree rebuilds from the listing without that entry. -/
+theorem apply_equals_rebuild_partial_delete (t : Tree) (e : Entry) (hwf : t.WF = true)
+    (hmem : lookupL t.flatten e.path = some e) :
+    ∃ t', commitTreeChanges t (toTChanges [⟨.delete, some e, none⟩]) = .ok t' ∧
+      commitTree (applyChanges [⟨.delete, some e, none⟩] t.flatten) = some t' := by
+  rcases ctcAux_single_del (e.path.length + 1) e.path t e (by omega) hwf hmem with ⟨t', hctc, hwf', hfl⟩
+  refine ⟨t', ?_, ?_⟩
+  · simpa [commitTreeChanges, toTChanges, addedEntries, removedPaths, maxLen] using hctc
+  · have : applyChanges [⟨.delete, some e, none⟩] t.flatten = t'.flatten := by
+      rw [hfl]
+      simp only [applyChanges, addedEntries, removedPaths, insertAll, List.foldl_nil]
+      apply List.filter_congr
+      intro x _
+      by_cases h : x.path = e.path <;> simp [h]
+    rw [this]
+    exact build_flatten t' hwf'
+
+/-- deleting the only file below a/b/ prunes both directories -/
+example : ctcResult (commitTreeChanges
+    (.dir [0x61] (.dir [0x62] (.file [0x63] ⟨0o100644, idA⟩ .nil) .nil) (.file [0x62] ⟨0o100644, idB⟩ .nil))
+    [([[0x61], [0x62], [0x63]], none)]) = some (.file [0x62] ⟨0o100644, idB⟩ .nil) := by decide
+
 example : ∃ t1, insertEntry cexTree ⟨[[0x61], [0x63], [0x64]], 0o100755, idB⟩ = some t1 ∧ cexTree.WF = true := by decide
+
+/-! ## _merge_entries, tree_lookup_path, byte paths -/
+
+/-- The two-pointer merge, right view: on name-ordered inputs the merged pairs that have a right side are exactly
+`ys`, in order, each paired with the left entry of the same name if there is one — -/
+theorem merge_entries_right {α : Type} (xs ys : List (Name × α)) (hx : NameSorted xs) (hy : NameSorted ys) :
+    (mergeEntries xs ys).flatMap (fun k => match k.2.2 with | some y => [(k.1, k.2.1, y)] | none => []) =
+      ys.map (fun e => (e.1, assoc xs e.1, e.2)) := by
+  unfold mergeEntries
+  rw [mergeAux_right (fun n xo yo => match yo with | some y => [(n, xo, y)] | none => []) _ xs ys (by omega) hx hy
+    (fun _ _ => rfl)]
+  exact List.map_eq_flatMap.symm
+
+/-- — and left view: those with a left side are exactly `xs`, in order, each paired with the right entry of the same
+name if there is one.  Together: every name of either side exactly once, matched iff present on both sides. -/
+theorem merge_entries_left {α : Type} (xs ys : List (Name × α)) (hx : NameSorted xs) (hy : NameSorted ys) :
+    (mergeEntries xs ys).flatMap (fun k => match k.2.1 with | some x => [(k.1, x, k.2.2)] | none => []) =
+      xs.map (fun e => (e.1, e.2, assoc ys e.1)) := by
+  unfold mergeEntries
+  rw [mergeAux_left (fun n xo yo => match xo with | some x => [(n, x, yo)] | none => []) _ xs ys (by omega) hx hy
+    (fun _ _ => rfl)]
+  exact List.map_eq_flatMap.symm
+
+/-- tree_lookup_path finds every entry of the flat listing at its path, with its mode and id (any hash) -/
+theorem lookup_path_agrees (H : Bytes → Id) (t : Tree) (hwf : t.WF = true) (p : Path) (e : Entry)
+    (h : lookupL t.flatten p = some e) : t.lookupRel H p = .ok (e.mode, e.id) :=
+  lookupRel_of_flatten H hwf h
+
+/-- component paths ↔ dulwich's byte paths: joining valid names with `/` and splitting again is the identity -/
+theorem path_bytes_roundtrip (p : Path) (hne : p ≠ []) (hv : p.all validName = true) :
+    splitPath (joinPath p) = p :=
+  splitPath_joinPath hne hv
+
+example : splitPath (joinPath [[0x61], [0x61, 0x2e, 0x62], [0x61, 0x2d]]) = [[0x61], [0x61, 0x2e, 0x62], [0x61, 0x2d]] := by decide
+example : mergeEntries [([0x61], 1), ([0x61, 0x2e, 0x62], 2), ([0x61, 0x30], 3)] [([0x61, 0x2d], 4), ([0x61, 0x2e, 0x62], 5)] =
+    [([0x61], some 1, none), ([0x61, 0x2d], none, some 4), ([0x61, 0x2e, 0x62], some 2, some 5), ([0x61, 0x30], some 3, none)] := by decide
 
 section Examples
 /-- the conflict alphabet of the property: `a/b`, `a.b`, `a-`, `a0`, `b/x/y`, with a symlink and a gitlink -/
@@ -242,6 +322,42 @@ example : (commitTree exL).map (fun t => t.flatten.map (·.path)) =
 example : ∃ t, commitTree exL = some t ∧ t.WF = true ∧ t.flatten.length = 5 := by
   rcases flatten_build exL (by decide) with ⟨t, h, hw, hf⟩
   exact ⟨t, h, hw, by rw [hf]; decide⟩
+/-- a = {a/b, a/c (exec), a- (gitlink), d/x, d/y};  b = {a (file: directory replaced), a- (gitlink, new id),
+a.b (symlink, new), d/x, d/y (identical sub-tree `d`, pruned)} -/
+def exA : Tree :=
+  .dir [0x61] (.file [0x62] ⟨0o100644, idA⟩ (.file [0x63] ⟨0o100755, idB⟩ .nil))
+    (.file [0x61, 0x2d] ⟨0o160000, idA⟩
+      (.dir [0x64] (.file [0x78] ⟨0o100644, idA⟩ (.file [0x79] ⟨0o100644, idB⟩ .nil)) .nil))
+def exB : Tree :=
+  .file [0x61] ⟨0o100644, idB⟩
+    (.file [0x61, 0x2d] ⟨0o160000, idB⟩
+      (.file [0x61, 0x2e, 0x62] ⟨0o120000, idA⟩
+        (.dir [0x64] (.file [0x78] ⟨0o100644, idA⟩ (.file [0x79] ⟨0o100644, idB⟩ .nil)) .nil)))
+
+/-- non-vacuity of `diff_sound_complete` / `each_path_once` / `diff_with_renames_sound_complete`: all hypotheses hold
+on a non-trivial pair (with the identity as "hash"), and the diff has five changes -/
+example : exA.WF = true ∧ exB.WF = true ∧ IdInjectiveOn id (exA :: exA.subtrees) (exB :: exB.subtrees) := by
+  refine ⟨by decide, by decide, ?_⟩
+  unfold IdInjectiveOn
+  decide
+example : (treeChanges id ⟨false, false, false⟩ none (some exA) (some exB)).map (·.type) =
+    [.add, .delete, .delete, .modify, .add] := by decide
+example : applyChanges (treeChanges id ⟨false, false, true⟩ none (some exA) (some exB)) exA.flatten = exB.flatten :=
+  diff_sound_complete id false true exA exB (fun _ => by unfold IdInjectiveOn; decide) (by decide) (by decide)
+/-- a pairing that turns (delete a/b, add a) into a rename and (add a.b) into a copy -/
+example : applyChanges (renamePass (fun _ => [.rename ⟨[[0x61], [0x62]], 0o100644, idA⟩ ⟨[[0x61]], 0o100644, idB⟩,
+      .copy ⟨[[0x64], [0x78]], 0o100644, idA⟩ ⟨[[0x61, 0x2e, 0x62]], 0o120000, idA⟩])
+    (treeChanges id ⟨false, false, false⟩ none (some exA) (some exB))) exA.flatten = exB.flatten :=
+  diff_with_renames_sound_complete id false false _ exA exB (fun _ => by unfold IdInjectiveOn; decide) (by decide) (by decide)
+/-- with want_unchanged the two entries below `d/` are reported as unchanged and the patch image is the same -/
+example : (treeChanges id ⟨true, false, false⟩ none (some exA) (some exB)).map (·.type) =
+    [.add, .delete, .delete, .modify, .add, .unchanged, .unchanged] := by decide
+example : (renamePass (fun _ => [.rename ⟨[[0x61], [0x62]], 0o100644, idA⟩ ⟨[[0x61]], 0o100644, idB⟩])
+    (treeChanges id ⟨false, false, false⟩ none (some exA) (some exB))).map (·.type) =
+    [.delete, .modify, .add, .rename] := by decide
+example : build_flatten exA (by decide) = build_flatten exA (by decide) := rfl
+example : commitTree exA.flatten = some exA := by decide
+
 /-- the file/directory conflict is outside the hypothesis and reported as such -/
 example : commitTree [⟨[[0x61]], 0o100644, idA⟩, ⟨[[0x61], [0x62]], 0o100644, idB⟩] = none := by decide
 end Examples
